@@ -191,25 +191,33 @@ def judge_reflection_unit(mon, R, ideal, nu, cond, sig, case):
     tol = TOL * max(1.0, cond)
     s = max(1.0, ri.maxabs(R))
     ok = True
+    # input class "wall (numerically) through the origin, given by ideal points": the
+    # problem is perfectly conditioned there, but the route Subspace._data_with_dual
+    # starts from the Poincare sphere's centre, which is at or near infinity
+    cls = sig.split(",")[0]
+    through = cls != "Hyperplane" and abs(nu[0]) <= 1e-6 * np.linalg.norm(nu)
+    sfx = "/%s/wall-through-origin" % cls if through else ""
+    if through:
+        sig = sig + ", wall through the origin"
+
+    def key(what):
+        return "reflection_across/" + what + sfx
+
     if not np.all(np.isfinite(R)):
-        through = abs(nu[0]) <= 1e-12 * np.linalg.norm(nu)
-        return mon.fail("reflection_across/non-finite/%s%s"
-                        % (sig.split(",")[0], "/wall-through-origin" if through else ""),
-                        "reflection matrix has non-finite entries (%s%s)"
-                        % (sig, ", wall through the origin" if through else ""), case)
-    ok &= mon.judge(ri.maxabs(R @ R - np.eye(n1)) / (s * s), tol,
-                    "reflection_across/not-involution",
+        return mon.fail(key("non-finite"), "reflection matrix has non-finite entries (%s)" % sig,
+                        case)
+    ok &= mon.judge(ri.maxabs(R @ R - np.eye(n1)) / (s * s), tol, key("not-involution"),
                     "R.R != identity for the reflection across a wall (%s)" % sig, case)
-    ok &= mon.judge(float(rh.form_residual(R)), tol, "reflection_across/form-not-preserved",
+    ok &= mon.judge(float(rh.form_residual(R)), tol, key("form-not-preserved"),
                     "reflection does not preserve the Minkowski form (%s)" % sig, case)
     ok &= mon.judge(abs(float(np.linalg.det(R)) + 1.0) / (s * s), tol * n1,
-                    "reflection_across/det-not-minus-one",
+                    key("det-not-minus-one"),
                     "reflection is not orientation-reversing: det = %r (%s)"
                     % (float(np.linalg.det(R)), sig), case)
     bn = ideal / np.linalg.norm(ideal, axis=-1, keepdims=True)
-    ok &= mon.judge(ri.maxabs(bn @ R - bn) / s, tol, "reflection_across/ideal-basis-not-fixed",
+    ok &= mon.judge(ri.maxabs(bn @ R - bn) / s, tol, key("ideal-basis-not-fixed"),
                     "reflection moves a vector of the wall's ideal basis (%s)" % sig, case)
-    ok &= mon.judge(ri.maxabs(nu @ R + nu) / s, tol, "reflection_across/normal-not-negated",
+    ok &= mon.judge(ri.maxabs(nu @ R + nu) / s, tol, key("normal-not-negated"),
                     "reflection does not negate the wall's normal (%s)" % sig, case)
     return ok
 
